@@ -53,6 +53,7 @@ type Exec struct {
 	safeTags []string
 	loops    map[*ssa.Function]*LoopInfo
 	shape    string
+	shapeObj *Shape
 	ghostOld *Snapshot
 	cexHook  func(e *Exec, st *State, o *Oblig) *Cex
 	recvIface types.Type
@@ -227,18 +228,13 @@ func (e *Exec) check(st *State, fr *Frame, class string, instr ssa.Instruction, 
 	if os.Getenv("GOVC_TRACE") != "" {
 		fmt.Fprintf(os.Stderr, "OBLIG %s\n", name)
 	}
-	if o.Failed+o.Undec > 0 && o.Inst > 3 {
+	if o.Failed+o.Undec > 0 && o.Inst > 6 {
 		// already failing: do not spend solver time on further path instances
 		o.Undec++
 		e.assume(orig)
 		return false
 	}
-	var cr CheckResult
-	if e.cexHook != nil {
-		cr = e.proveWithHook(st, o, goal)
-	} else {
-		cr = e.sol.Prove(goal, nil)
-	}
+	cr := e.prove(st, o, goal)
 	o.Secs += cr.Secs
 	ok := cr.Res == "unsat"
 	if ok {
@@ -282,29 +278,87 @@ func skolemGoal(g *Term) *Term {
 	return g
 }
 
-func (e *Exec) proveWithHook(st *State, o *Oblig, goal *Term) CheckResult {
-	// same as Solver.Prove but lets the hook query the model while it is live
+// skolemsOf lists the Int skolem constants of a skolemised goal.
+func skolemsOf(g *Term) []*Term {
+	seen := map[*Term]bool{}
+	var out []*Term
+	var walk func(t *Term)
+	walk = func(t *Term) {
+		if seen[t] {
+			return
+		}
+		seen[t] = true
+		if len(t.Args) == 0 && t.S == SInt && strings.HasPrefix(strings.Trim(t.Op, "|"), "sk.") {
+			out = append(out, t)
+		}
+		for _, a := range t.Args {
+			walk(a)
+		}
+	}
+	walk(g)
+	if len(out) > 6 {
+		out = out[:6]
+	}
+	return out
+}
+
+// prove: the live solver first; then, with the quantified hypotheses of the
+// path instantiated at the skolem constants of the goal; then the other solvers
+// on the stand-alone script. The counterexample hook runs only when all of
+// them have failed, on a live model of the first solver.
+func (e *Exec) prove(st *State, o *Oblig, goal *Term) CheckResult {
 	s := e.sol
-	s.Push()
-	neg := "(assert (not " + goal.String() + "))"
-	s.raw(neg)
-	r, detail := s.checkRaw(s.timeout)
-	cr := CheckResult{Res: r, By: "z3-new", Detail: detail}
-	if (r == "sat" || r == "unknown") && o.Cex == nil {
-		o.Cex = e.cexHook(e, st, o)
+	t0 := time.Now()
+	cr, script := s.primary(goal)
+	if cr.Res == "unsat" {
+		cr.Secs = time.Since(t0).Seconds()
+		return cr
 	}
-	script := ""
-	if r != "unsat" {
-		script = s.Script(neg)
-	}
-	s.Pop()
-	if r == "unknown" || r == "error" {
-		cr2 := s.Prove(goal, nil)
-		return cr2
-	}
-	if r != "unsat" {
+	if o.Failed+o.Undec > 0 {
+		// the obligation has already failed on another path: one attempt only
 		lastScript = script
+		cr.Secs = time.Since(t0).Seconds()
+		return cr
 	}
+	pushed := false
+	if sks := skolemsOf(goal); len(sks) > 0 {
+		if insts := s.instancesAt(sks); len(insts) > 0 {
+			e.push()
+			pushed = true
+			for _, x := range insts {
+				e.assumeRaw(x)
+			}
+			cr2, script2 := s.primary(goal)
+			if cr2.Res == "unsat" {
+				e.pop()
+				cr2.By = "z3-new+inst"
+				cr2.Secs = time.Since(t0).Seconds()
+				return cr2
+			}
+			cr, script = cr2, script2
+		}
+	}
+	if cr.Res == "unknown" || cr.Res == "error" {
+		cr = s.fallbacks(script, cr)
+	}
+	if cr.Res != "unsat" {
+		lastScript = script
+		if e.cexHook != nil && o.Cex == nil {
+			s.Push()
+			s.raw("(assert (not " + goal.String() + "))")
+			if r, _ := s.checkRaw(s.timeout); r == "sat" || r == "unknown" {
+				o.Cex = e.cexHook(e, st, o)
+			}
+			s.Pop()
+		}
+	}
+	if pushed {
+		e.pop()
+		if cr.Res == "unsat" {
+			cr.By += "+inst"
+		}
+	}
+	cr.Secs = time.Since(t0).Seconds()
 	return cr
 }
 
